@@ -1256,4 +1256,118 @@ example : [49199, 47].Sublist [49199, 52392, 47] ∧ less 47 49199 = false := by
 example : (connect (exConn [49199, 47] [47] (some [0])) (some { vers := 771, suite := 49199, key := 0 })).resumed = false ∧
     negotiate (exConn [49199, 47] [47] (some [0])).c (exConn [49199, 47] [47] (some [0])).s ≠ .unmodelled := by decide
 
+/-! ### one listener Config, `GetConfigForClient` per connection (`c24 lsn`)
+
+  `readClientHello` takes the ticket keys from `originalConfig.ticketKeys(configForClient)`: whatever Config the
+  callback returns, as long as it sets no keys of its own the LISTENER's keys serve the connection — so tickets issued on
+  one connection decrypt on the next although every connection may get a brand-new Config. -/
+
+/-- **the documented rule, first half**: a callback that is unset, returns nil, returns a fresh Clone of the listener's
+    Config or returns any other Config WITHOUT ticket settings leaves the listener's own keys in use — explicit ones,
+    or its one auto-managed key -/
+theorem hook_keeps_listener_keys (l : KeyCfg) (h : Hook) :
+    ticketKeys l (forClientCfg l h none) = ownKeys l := by
+  cases h <;> simp only [forClientCfg, ticketKeys, ownKeys]
+  all_goals (cases hd : l.disabled <;> cases hk : l.keys.isEmpty <;> simp [hd, hk])
+
+/-- **second half**: explicit keys on the returned Config (tickets not disabled on it) are the connection's keys,
+    whatever the listener's Config says -/
+theorem hook_explicit_keys_win (l m : KeyCfg) (hd : m.disabled = false) (hk : m.keys.isEmpty = false) :
+    ticketKeys l (forClientCfg l .fresh (some m)) = m.keys := by
+  simp [forClientCfg, ticketKeys, hd, hk]
+
+/-- the same for keys set on a Clone of a listener Config that does not disable tickets -/
+theorem hook_clone_keys_win (l m : KeyCfg) (hl : l.disabled = false) (hd : m.disabled = false) (hk : m.keys.isEmpty = false) :
+    ticketKeys l (forClientCfg l .clone (some m)) = m.keys := by
+  simp [forClientCfg, ticketKeys, hl, hd, hk]
+
+/-- a returned Config that disables tickets: no keys, and the flag in force says so -/
+theorem hook_disabled (l m : KeyCfg) (h : Hook) (hh : h = .clone ∨ h = .fresh) (hd : m.disabled = true) :
+    ticketKeys l (forClientCfg l h (some m)) = [] ∧ inForceDisabled l (forClientCfg l h (some m)) = true := by
+  rcases hh with rfl | rfl <;> simp [forClientCfg, ticketKeys, inForceDisabled, hd]
+
+/-- the connection a step amounts to does not depend on HOW the listener's Config stays in force: callback unset,
+    returning nil, or returning a fresh Clone -/
+theorem lstepConn_unset_nil_clone (ls : Server) (lk : KeyCfg) (st : LStep) (h : Hook)
+    (hh : h = .unset ∨ h = .retNil ∨ h = .clone) :
+    lstepConn ls lk { st with hook := h, pk := none } = lstepConn ls lk { st with hook := .unset, pk := none } := by
+  have hk := hook_keeps_listener_keys lk
+  rcases hh with rfl | rfl | rfl
+  · rfl
+  · rfl
+  · have h1 := hk .clone
+    have h2 := hk .unset
+    simp only [lstepConn, h1, h2]
+    simp [forClientCfg, inForceDisabled]
+
+/-- … nor on whether a per-client Config with the listener's server fields and no ticket settings is returned instead,
+    when the listener's Config has tickets on -/
+theorem lstepConn_fresh_same (ls : Server) (lk : KeyCfg) (st : LStep) (hs : st.s = ls) (hl : lk.disabled = false) :
+    lstepConn ls lk { st with hook := .fresh, pk := none } = lstepConn ls lk { st with hook := .unset, pk := none } := by
+  have h1 := hook_keeps_listener_keys lk .fresh
+  have h2 := hook_keeps_listener_keys lk .unset
+  simp only [lstepConn, h1, h2]
+  simp [forClientCfg, inForceDisabled, hs, hl]
+
+/-- with tickets disabled, or enabled with at least one key, a listener connection IS `connect` (every `connect_*`
+    theorem above transfers) -/
+theorem lconnect_eq_connect (k : LConn) (cache : Option Sess) (h : k.disabled = true ∨ k.keys ≠ []) :
+    lconnect k cache = connect { c := k.c, s := k.s, useCache := k.useCache,
+                                 tkeys := if k.disabled then none else some k.keys } cache := by
+  unfold lconnect
+  cases hd : k.disabled
+  · rcases h with h | h
+    · simp [hd] at h
+    · cases hk : k.keys with
+      | nil => exact absurd hk h
+      | cons a as => simp
+  · simp
+
+/-- tickets enabled but no key (listener Config disables tickets, the per-client Config does not and brings none):
+    nothing resumes, and a client that asks for tickets (session cache configured) never gets a completed handshake —
+    the code as it is (finding F-C24-tickets-on-without-keys) -/
+theorem lconnect_no_keys (k : LConn) (cache : Option Sess) (hd : k.disabled = false) (hk : k.keys = []) :
+    (lconnect k cache).resumed = false ∧ (k.useCache = true → ∀ o, (lconnect k cache).res ≠ .done o) := by
+  have hr : (connect { c := k.c, s := k.s, useCache := k.useCache, tkeys := none } cache).resumed = false := by
+    cases hres : (connect { c := k.c, s := k.s, useCache := k.useCache, tkeys := none } cache).resumed
+    · rfl
+    · obtain ⟨_, _, ks, _, _, _, htk, _⟩ := connect_resumed_sound _ _ hres
+      simp at htk
+  unfold lconnect
+  simp only [hd, hk, Bool.false_eq_true, if_false]
+  generalize connect { c := k.c, s := k.s, useCache := k.useCache, tkeys := none } cache = o at hr ⊢
+  cases hres : o.res with
+  | done r =>
+    cases hu : k.useCache
+    · simp [hr]
+    · simp only [if_true]
+      generalize loadSession _ _ _ _ = p
+      cases p <;> simp [failedWith]
+  | fail => simp [hr, hres]
+  | unmodelled => simp [hr, hres]
+
+/-- a listener with auto-managed keys whose callback returns a fresh Clone per connection (TLS 1.2, then TLS 1.3) -/
+def exLStep (maxV : Nat) (cs : List Nat) (h : Hook) (pk : Option KeyCfg) : LStep :=
+  { c := { minV := 0, maxV := maxV, suites := some cs, force := false, curves := none, alpn := [] },
+    s := { minV := 0, maxV := 0, suites := none, prefer := false, curves := none, alpn := [], key := .rsa, rand := .none },
+    useCache := true, hook := h, pk := pk }
+def exAuto : KeyCfg := { disabled := false, keys := [] }
+-- every connection after the first resumes, whatever mixture of callbacks keeps the listener's keys in use
+example : ((runLsn (exLStep 771 [47] .unset none).s exAuto none
+    [exLStep 771 [47] .clone none, exLStep 771 [47] .clone none, exLStep 771 [47] .fresh none, exLStep 771 [47] .retNil none]).map
+    (fun o => o.resumed)) = [false, true, true, true] := by decide
+example : ((runLsn (exLStep 0 [4865] .unset none).s exAuto none
+    [exLStep 0 [4865] .fresh none, exLStep 0 [4865] .clone none, exLStep 0 [4865] .unset none]).map
+    (fun o => o.resumed)) = [false, true, true] := by decide
+-- keys of its own on the returned Config: a ticket sealed under the listener's key is not accepted there
+example : ((runLsn (exLStep 771 [47] .unset none).s exAuto none
+    [exLStep 771 [47] .clone none, exLStep 771 [47] .fresh (some { disabled := false, keys := [3] }),
+     exLStep 771 [47] .fresh (some { disabled := false, keys := [3] })]).map
+    (fun o => o.resumed)) = [false, false, true] := by decide
+-- hypotheses of `lconnect_no_keys` / `hook_disabled` / `hook_explicit_keys_win` are satisfiable
+example : (lstepConn (exLStep 771 [47] .unset none).s { disabled := true, keys := [] } (exLStep 771 [47] .fresh none)).disabled = false ∧
+    (lstepConn (exLStep 771 [47] .unset none).s { disabled := true, keys := [] } (exLStep 771 [47] .fresh none)).keys = [] := by decide
+example : (lconnect (lstepConn (exLStep 771 [47] .unset none).s { disabled := true, keys := [] } (exLStep 771 [47] .fresh none)) none).res = .fail := by decide
+example : ({ disabled := true, keys := [] } : KeyCfg).disabled = true ∧ ({ disabled := false, keys := [3] } : KeyCfg).keys.isEmpty = false := by decide
+
 end ZV.C24
